@@ -2,38 +2,58 @@
 (* Generic trace validator.  The trace file is ndjson, one HISTORY per line:  *)
 (*   {"h": <id>, "ev": [ <event>, ... ]}                                    *)
 (* Every history is an independent behaviour of the subsystem specification;  *)
-(* TLC takes one initial state per history (so 16 workers validate in         *)
-(* parallel) and one step per recorded event.  Step(st, e) is supplied by the *)
-(* subsystem trace module and re-uses the subsystem's operators; it returns   *)
-(* [st |-> next abstract state, v |-> verdict] where v = <<>> means "the      *)
-(* specification allows the recorded result" and anything else names the      *)
-(* violated clause.  A rejected event does not stop validation: the verdict is *)
-(* recorded and validation continues (the subsystem decides how to resync).   *)
-(* When a history is exhausted one line is appended to VOUT; the driver       *)
-(* requires one line per history with n = number of recorded events           *)
-(* (that is the acceptance condition; a missing line is infrastructure).      *)
+(* TLC takes one initial state per history (so all workers validate in        *)
+(* parallel) and one step per recorded event.                                 *)
+(*                                                                           *)
+(*   Upd(st, e)        the abstract state after event e.  It must be cheap: it *)
+(*                     is the state the implementation LOGGED (or a trivial    *)
+(*                     update), so validation always continues from what the   *)
+(*                     code really did and the rest of the trace is examined.  *)
+(*   Verdict(p, e, s)  <<>> when the specification's action for e allows the   *)
+(*                     step from abstract state p to the logged state s with   *)
+(*                     the logged result; otherwise <<clause, expected, got>>. *)
+(*                                                                           *)
+(* Verdict is evaluated as a state INVARIANT (Judge) on the state reached by  *)
+(* consuming e -- measured: TLC caches operator arguments when it evaluates   *)
+(* invariants but re-evaluates them on every use inside actions, which made   *)
+(* action-level validation 100x slower.  Judge never fails; a rejected event  *)
+(* appends one line [h, i, v] to VOUT.  When a history is exhausted one line  *)
+(* [h, n] is appended; the driver requires one such line per history with     *)
+(* n = number of recorded events (a missing line is infrastructure, exit 2).  *)
+(*                                                                           *)
+(* NOTE the variable names: TLC resolves identifiers by NAME when it decides  *)
+(* whether a definition is constant-level; a spec variable called i made      *)
+(* every library definition binding i (lookup tables!) non-constant, hence    *)
+(* uncached and re-evaluated on every use (measured 8 ms per table lookup).   *)
 EXTENDS Integers, Sequences, TLC, Json, CSV, IOUtils
 
 Trace == ndJsonDeserialize(IOEnv.TRACE)
 
-VARIABLES h, i, st, bad
-tvars == <<h, i, st, bad>>
+VARIABLES trH, trI, trS, trP
+tvars == <<trH, trI, trS, trP>>
 
-TInit(St0) == \E hh \in 1..Len(Trace) : h = hh /\ i = 1 /\ st = St0 /\ bad = <<>>
+TInit(St0) == \E hh \in 1..Len(Trace) : trH = hh /\ trI = 1 /\ trS = St0 /\ trP = St0
 
-Consume(Step(_, _)) ==
-  /\ i <= Len(Trace[h].ev)
-  /\ LET r == Step(st, Trace[h].ev[i]) IN
-       /\ st' = r.st
-       /\ bad' = IF r.v = <<>> THEN bad ELSE Append(bad, [i |-> i, v |-> r.v])
-  /\ i' = i + 1
-  /\ UNCHANGED h
+Consume(Upd(_, _)) ==
+  /\ trI <= Len(Trace[trH].ev)
+  /\ trP' = trS
+  /\ trS' = Upd(trS, Trace[trH].ev[trI])
+  /\ trI' = trI + 1
+  /\ UNCHANGED trH
 
 Finish ==
-  /\ i = Len(Trace[h].ev) + 1
-  /\ CSVWrite("%1$s", <<ToJson([h |-> Trace[h].h, n |-> i - 1, bad |-> bad])>>, IOEnv.VOUT)
-  /\ i' = i + 1
-  /\ UNCHANGED <<h, st, bad>>
+  /\ trI = Len(Trace[trH].ev) + 1
+  /\ CSVWrite("%1$s", <<ToJson([h |-> Trace[trH].h, n |-> trI - 1])>>, IOEnv.VOUT)
+  /\ trI' = trI + 1
+  /\ UNCHANGED <<trH, trS, trP>>
 
-TNext(Step(_, _)) == Consume(Step) \/ Finish
+TNext(Upd(_, _)) == Consume(Upd) \/ Finish
+
+\* the event consumed by the step that led to the current state
+Judge(Verdict(_, _, _)) ==
+  (trI > 1 /\ trI <= Len(Trace[trH].ev) + 1) =>
+     LET v == Verdict(trP, Trace[trH].ev[trI - 1], trS)
+     IN v = <<>> \/ CSVWrite("%1$s", <<ToJson([h |-> Trace[trH].h, i |-> trI - 1, v |-> v])>>, IOEnv.VOUT)
+
+Same(s, e) == s
 =============================================================================
